@@ -335,9 +335,9 @@ theorem C07_values_proxy (clients : List Client) (r : Req) (es : List Entry)
 
 def exampleDB : Block :=
   ⟨[(5, 9), (9, 3)], 0, 100,
-   [⟨[(1, 8), (5, 1), (7, 6)], [⟨10, 20, 1⟩, ⟨30, 40, 2⟩]⟩, ⟨[(1, 7), (9, 6)], [⟨50, 60, 3⟩]⟩]⟩
+   [⟨[(1, 8), (5, 1), (7, 6)], [⟨10, 20, 1⟩, ⟨30, 40, 2⟩]⟩, ⟨[(1, 7), (9, 6)], [⟨50, 60, 3⟩]⟩], 0⟩
 
-def exampleReq : Req := ⟨0, 45, [⟨1, false, [7, 8]⟩, ⟨5, false, [9]⟩], [9], false, false⟩
+def exampleReq : Req := ⟨0, 45, [⟨1, false, [7, 8]⟩, ⟨5, false, [9]⟩], [9], false, false, 0⟩
 
 example : (match tsdbSeries exampleDB exampleReq with
     | .ok es => es.map (fun e => (e.1, e.2.map (·.id)))
